@@ -25,6 +25,13 @@ type c18Kernel struct {
 	nin     int
 	inpos   int
 	sysErrs int
+	// auto mode (H_C18_senders): the partialAt-th write call accepts only partialN bytes, the
+	// eagainAt-th answers EAGAIN, every other one accepts everything
+	auto      bool
+	calls     int
+	partialAt int
+	partialN  int
+	eagainAt  int
 }
 
 var c18K *c18Kernel
@@ -51,7 +58,19 @@ func vfstub_Syscall(trap, a1, a2, a3 uintptr) (uintptr, uintptr, syscall.Errno) 
 	switch trap {
 	case syscall.SYS_WRITE:
 		n := int(a3)
-		v := k.next()
+		v := 0
+		if k.auto {
+			k.calls++
+			v = n
+			if k.calls == k.partialAt && k.partialN < n {
+				v = k.partialN
+			}
+			if k.calls == k.eagainAt {
+				v = 0
+			}
+		} else {
+			v = k.next()
+		}
 		if v == 0 {
 			asyncNotify(k.conn.onWriteReadyCh) // epoll reports write-readiness later
 			return 0, 0, syscall.EAGAIN
@@ -254,4 +273,95 @@ func H_C18_read() {
 	}
 	vfAssert(k.conn.readEndOff-k.conn.readStartOff == k.inpos-cb.consumed, "C18.unconsumed-retained")
 	vfCover("C18.read.end")
+}
+
+// (c) two senders: the fast path of wakeUpPeer (any goroutine) and the send loop share the
+// connection through Session.writing and the continue-token channel. The fast-path writer is
+// stopped in front of every synchronisation operation - in particular in the middle of its event,
+// after a partial kernel write - while the send loop handles a queued event; an earlier fast-path
+// write has left a stale continue token. No event may be written into the middle of another.
+type c18Wrap struct {
+	real    *connEventHandler
+	s       *Session
+	n       int
+	closeAt int
+}
+
+func (c *c18Wrap) commitRead(n int)                       { c.real.commitRead(n) }
+func (c *c18Wrap) setCallback(cb eventConnCallback) error { return nil }
+func (c *c18Wrap) writev(data ...[]byte) error            { return c.real.writev(data...) }
+func (c *c18Wrap) close() error                           { return nil }
+func (c *c18Wrap) write(data []byte) error {
+	c.n++
+	me := c.n
+	err := c.real.write(data)
+	if me == c.closeAt {
+		// the session is shut down right after this event: lets the send loop return
+		close(c.s.shutdownCh)
+	}
+	return err
+}
+
+func H_C18_senders() {
+	vfInfeasibleOK()
+	k := c18Setup(8)
+	k.auto = true
+	k.partialAt = 2
+	k.partialN = vfShape("partial", 1, 7)
+	k.eagainAt = 3 * vfShape("eagain", 0, 1)
+	const qc = 2
+	qmem := make([]byte, queueHeaderLength+qc*queueElementLen)
+	q := createQueueFromBytes(qmem, qc)
+	s := &Session{queueManager: &queueManager{sendQueue: q, recvQueue: q}, communicationVersion: 2, config: &Config{},
+		sendCh: make(chan sendReady, 4), notifyContinueWriteCh: make(chan struct{}, 1), shutdownCh: make(chan struct{})}
+	wr := &c18Wrap{real: k.conn, s: s, closeAt: 3}
+	s.eventConn = wr
+	// an earlier fast-path wake-up: complete, leaves its continue token behind
+	vfAssert(s.wakeUpPeer() == nil, "C18.senders.setup")
+	vfAssert(k.nout == headerSize, "C18.senders.first-event-written")
+	*q.workingFlag = 0 // the peer's consumer went idle again
+	// another goroutine queued an event for the send loop
+	body := vfBytes(3)
+	s.sendCh <- sendReady{Body: body}
+	cut := vfShape("cut", 0, 16)
+	fired := false
+	vfSyncHook(cut, func() {
+		fired = true
+		s.send() // handles the queued event; returns when the session shuts down right after it
+	})
+	vfAssert(s.wakeUpPeer() == nil, "C18.senders.second-wakeup")
+	vfStallHookOff()
+	if !fired {
+		vfPrune()
+	}
+	// on the socket: the first polling event, then the second polling event and the body, each
+	// contiguous, in either order
+	poll := pollingEventWithVersion[2]
+	vfAssert(k.nout == 2*headerSize+3, "C18.every-event-written-exactly-once")
+	bodyFirst := true
+	for i := 0; i < 3; i++ {
+		if k.out[headerSize+i] != body[i] {
+			bodyFirst = false
+		}
+	}
+	pollFirst := true
+	for i := 0; i < headerSize; i++ {
+		if k.out[headerSize+i] != poll[i] {
+			pollFirst = false
+		}
+	}
+	okA := bodyFirst
+	for i := 0; i < headerSize; i++ {
+		if k.out[headerSize+3+i] != poll[i] {
+			okA = false
+		}
+	}
+	okB := pollFirst
+	for i := 0; i < 3; i++ {
+		if k.out[2*headerSize+i] != body[i] {
+			okB = false
+		}
+	}
+	vfAssert(okA || okB, "C18.events-are-not-interleaved-on-the-socket")
+	vfCover("C18.senders.end")
 }
